@@ -6,6 +6,7 @@ from uuid import uuid4
 
 from amqpstorm.base import IDLE_WAIT
 from amqpstorm.exception import AMQPChannelError
+from amqpstorm.exception import AMQPMessageError
 
 
 class Rpc(object):
@@ -130,7 +131,12 @@ class Rpc(object):
         """
         start_time = time.time()
         while not self._response[uuid]:
-            connection_adapter.check_for_errors()
+            try:
+                connection_adapter.check_for_errors()
+            except AMQPMessageError as why:
+                if not connection_adapter.is_open:
+                    raise
+                connection_adapter.exceptions.insert(0, why)
             if time.time() - start_time > self._timeout:
                 self._raise_rpc_timeout_error(uuid)
             time.sleep(IDLE_WAIT)
